@@ -26,7 +26,7 @@ ASSUMPTIONS = [
     "depend on digits beyond double precision",
     "fail-fast rejection = any MetapypeRuleError; collecting rejection = non-empty list of well-formed entries",
 ]
-REQUIRED = ["accept_agree", "reject_agree", "failfast_calls", "collecting_calls"]
+REQUIRED = ["validations_on_long_lived_node", "childless_judged_right_after_same_content_with_children", "accept_agree", "reject_agree", "failfast_calls", "collecting_calls"]
 EXHAUSTIVE = {"quick": False, "thorough": False}
 
 CONTENT_CODES_PREFIX = ("CONTENT_", "STR_CONTENT", "UNKNOWN_CONTENT_RULE")
@@ -76,10 +76,18 @@ def nonempty_child_sequence(rule_name):
 _EARLIER = (emlkit.ValidationError.UNKNOWN_NODE, "entry left by an earlier validation", emlkit.Node("verifEarlier"))
 
 
-def observe(rule_name, element, kids, content):
+_PREVIOUS = {}
+_NONE = object()
+
+
+def observe(rule_name, element, kids, content, reuse=False):
     res = []
     for mode in ("failfast", "collecting"):
-        n = emlkit.make_node(rule_name, element, kids, content=content)
+        if reuse:
+            n, _new = emlkit.long_lived_node(rule_name, element, kids)
+            n.content = content
+        else:
+            n = emlkit.make_node(rule_name, element, kids, content=content)
         errs = None if mode == "failfast" else []
         prefilled = mode == "collecting" and len(str(content)) % 2 == 1
         if prefilled:
@@ -111,7 +119,8 @@ def observe(rule_name, element, kids, content):
         except Exception as e:
             res.append(f"crash:{type(e).__name__}@{emlkit.raise_site(e)}")
         finally:
-            emlkit.discard(n)
+            if not reuse:
+                emlkit.discard(n)
     return res
 
 
@@ -119,11 +128,21 @@ def judge(ctx, rule_name, element, kids, content, stats=None, after=None):
     spec = emlkit.rules_table()[rule_name][2]
     mixed = emlkit.is_mixed(rule_name)
     exp, parts = C.rule_verdict(spec, content, mixed, bool(kids))
-    ff, co = observe(rule_name, element, kids, content)
+    # a third of the cases are validated on a long-lived node whose content is replaced in place (the previous content is part of
+    # the witness: it is what a verdict remembered from last time would be about)
+    reuse = (len(str(content)) + len(rule_name)) % 3 == 0
+    key = (rule_name, element, tuple(kids))
+    previous = _PREVIOUS.get(key, _NONE) if reuse else _NONE
+    ff, co = observe(rule_name, element, kids, content, reuse)
+    if reuse:
+        _PREVIOUS[key] = content
+        ctx.count("validations_on_long_lived_node")
     ctx.evaluated(2)
     ctx.count("failfast_calls")
     ctx.count("collecting_calls")
     wit = {"rule": rule_name, "element": element, "children": kids, "content": content}
+    if previous is not _NONE:
+        wit["previous_content_of_the_same_node"] = previous
     if after is not None:
         wit["after_the_same_content_with_children"] = after
     shown = f"{rule_name} content {content!r}" + (f" with children {kids}" if kids else "")
@@ -233,6 +252,8 @@ def finish(merged):
 
 
 def replay(ctx, witness):
+    if "previous_content_of_the_same_node" in witness:
+        observe(witness["rule"], witness["element"], witness["children"], witness["previous_content_of_the_same_node"], reuse=True)
     if witness.get("after_the_same_content_with_children"):
         judge(ctx, witness["rule"], witness["element"], witness["after_the_same_content_with_children"], witness["content"])
     out = judge(ctx, witness["rule"], witness["element"], witness["children"], witness["content"])
